@@ -28,6 +28,7 @@ type Env struct {
 	Taint   map[string]bool
 	Markers map[string]bool
 	LastViews map[string][]spec.DepView // dependency outputs as of each target's last execution
+	Unsure    map[string]bool           // targets whose stored result was left by a cache-disabled build
 	Pending   map[string][]string       // edit operators that changed a target's own state since its last execution
 
 	prevFiles map[string]string
@@ -53,7 +54,7 @@ func NewEnv(base, name, grogBin, vctlBin string, s *spec.Spec, cfg grog.Config) 
 		}
 	}
 	e := &Env{Dir: dir, WS: ws, Spec: s, Cfg: cfg, Memo: map[string]string{}, Strict: map[string]bool{},
-		Taint: map[string]bool{}, Markers: map[string]bool{}, LastViews: map[string][]spec.DepView{}, Pending: map[string][]string{}, prevFiles: map[string]string{}}
+		Taint: map[string]bool{}, Markers: map[string]bool{}, LastViews: map[string][]spec.DepView{}, Pending: map[string][]string{}, Unsure: map[string]bool{}, prevFiles: map[string]string{}}
 	e.M = &grog.Machine{Bin: grogBin, Workspace: ws, Root: filepath.Join(dir, "root"), Home: filepath.Join(dir, "home"),
 		Trace: filepath.Join(dir, "trace"), Sidecar: filepath.Join(dir, "sidecar.json"), VctlBin: vctlBin}
 	if err := e.Sync(); err != nil {
